@@ -27,7 +27,9 @@ class Check(RuntimeCheck):
                 if tier == 'quick' and npat == 3 and (masks[0] + 3 * masks[1] + 5 * masks[2]) % 4 != 0:
                     continue
                 for form in range(4 if npat > 1 else 3):
-                    pats = [Pat(mask=m, chain=[seg(f"ret{10 * (i + 1)}")]) for i, m in enumerate(masks)]
+                    # every fifth pattern list: all patterns come "from the same source site" (same text, file and line) and differ in what they accept
+                    same_site = 1 if (sum(masks) + npat) % 5 == 2 else 0
+                    pats = [Pat(mask=m, chain=[seg(f"ret{10 * (i + 1)}")], dbg=same_site) for i, m in enumerate(masks)]
                     if form == 0:
                         tree = tup([term(1, 'each', p) for p in pats]) if npat > 1 else term(1, 'each', pats[0])
                     elif form == 1:
@@ -37,7 +39,7 @@ class Check(RuntimeCheck):
                         tree = stub(1, pats)
                     elif form == 2:
                         kinds = ['each', 'some', 'each']
-                        pats2 = [Pat(mask=p.mask, chain=[seg(p.chain[0][0], 'al0')]) for p in pats]
+                        pats2 = [Pat(mask=p.mask, chain=[seg(p.chain[0][0], 'al0')], dbg=p.dbg) for p in pats]
                         tree = tup([term(1, kinds[i % 3], p) for i, p in enumerate(pats2)])
                     else:
                         # exactly-quantified patterns: a pattern that has used up its count still answers the calls it accepts first
